@@ -7,6 +7,9 @@ LEVEL = "model_checking"
 HARNESS = [os.path.join(vlib.HARNESS, "root", "common_test.go"), os.path.join(vlib.HARNESS, "root", "lancero_test.go")]
 
 
+FUZZY_UNDER_LOSS = ("C04_once_in_order", "C04_retard_mix", "C04_ext", "C04_complete", "C04_invented")
+
+
 def _go(ctx, sp, tp, nrandom, extra):
     env = {"VERIF_SCEN": sp, "VERIF_OUT": tp, "VERIF_NRANDOM": nrandom}
     env.update(extra)
@@ -120,6 +123,17 @@ def judge(ctx, events, viols, scens):
                         inside = True
                     p0 += b["n"]
             sig["gap_inside_read"] = inside
+            # derived from the card's side: is this a loss today's reader re-aligns on (junction in the first frame of a
+            # driver read, regular frame-bit pattern behind it)?  F5b covers only the others.
+            gc = [x for x in s["events"] if x["ev"] == "End"]
+            gc = gc[-1].get("gapclass") if gc else None
+            sig["loss_visible_to_reader"] = bool(gc and gc["found"] and gc["infirst"] and gc["regular"])
+            # The reference of a perfect frame-bit reader is more than the property asks for under a loss (it says:
+            # re-align to the next frame boundary, report the loss): where the reader can see the loss, only
+            # C04_realigned / loss_reported / monotone / shape / nocrash are demanded; the reference predicates are not.
+            if sig["loss_visible_to_reader"] and v["predicate"] in FUZZY_UNDER_LOSS:
+                ctx.notes["reference_predicates_not_demanded_under_visible_loss"] = ctx.notes.get("reference_predicates_not_demanded_under_visible_loss", 0) + 1
+                continue
         sc = scens[s["id"] - 1] if s["id"] - 1 < len(scens) else {"seeded": True, "config": {k: c[k] for k in c if k != "truth"}}
         vlib.report_violation(ctx, sig, sc)
 
